@@ -1144,3 +1144,67 @@ func ruleRepeatTestSeesTombstones(r *Run) {
 	}
 	r.check(n >= 1, "copy:value-repeat-tests", fmt.Sprintf("%d", n), "none found: rule needs review", "-")
 }
+
+func init() {
+	register(ruleDef{ID: "R15.7", Prop: "C15", Tier: "quick", Floor: 2,
+		Title: "the LZ4 length prefix is never written as 0 by the serialiser (the reader takes 0 for \"stored raw\"): in SerializeData the store of the original length into the 4-byte prefix is decided by a test of the input's length against 0",
+		Fn:    ruleNoZeroLengthPrefix})
+}
+
+func ruleNoZeroLengthPrefix(r *Run) {
+	w := r.W
+	f := w.fn("dvid", "SerializeData")
+	if f == nil {
+		r.undecided("dvid.SerializeData", "anchor not found")
+		return
+	}
+	data := f.Params[0]
+	n := 0
+	for _, c := range calls(f) {
+		if methodNameOf(c) != "PutUint32" || len(c.Common().Args) < 2 {
+			continue
+		}
+		val := c.Common().Args[len(c.Common().Args)-1]
+		fromLen := false
+		for d := range dataDeps(val) {
+			if lc, ok := d.(*ssa.Call); ok {
+				if bi, ok := lc.Call.Value.(*ssa.Builtin); ok && bi.Name() == "len" && len(lc.Call.Args) == 1 && lc.Call.Args[0] == ssa.Value(data) {
+					fromLen = true
+				}
+			}
+		}
+		if !fromLen {
+			continue
+		}
+		n++
+		guarded := false
+		for _, b := range f.Blocks {
+			ifi, ok := b.Instrs[len(b.Instrs)-1].(*ssa.If)
+			if !ok {
+				continue
+			}
+			bo, ok := ifi.Cond.(*ssa.BinOp)
+			if !ok {
+				continue
+			}
+			isLen := func(v ssa.Value) bool {
+				lc, ok := v.(*ssa.Call)
+				if !ok {
+					return false
+				}
+				bi, ok := lc.Call.Value.(*ssa.Builtin)
+				return ok && bi.Name() == "len" && lc.Call.Args[0] == ssa.Value(data)
+			}
+			zero := func(v ssa.Value) bool { k, ok := constInt(v); return ok && k == 0 }
+			if !((isLen(bo.X) && zero(bo.Y)) || (isLen(bo.Y) && zero(bo.X))) {
+				continue
+			}
+			if guardedByEdge(ifi, 0, c) || guardedByEdge(ifi, 1, c) {
+				guarded = true
+			}
+		}
+		r.check(guarded, "SerializeData:length-prefix:input-not-empty", "the prefix is written only for non-empty input",
+			"the length prefix can be written for empty input: the value carries a prefix of 0, which the deserialiser reads as \"stored raw\", and an empty payload comes back as the compressor's token byte instead of zero bytes", w.pos(c.Pos()))
+	}
+	r.check(n >= 1, "SerializeData:length-prefix-stores", fmt.Sprintf("%d", n), "the prefix store was not found: rule needs review", w.fpos(f))
+}
